@@ -77,6 +77,7 @@ class EnoughViolations(Exception):
 
 
 VIOLATION_CAP = 3000
+WALL_BUDGET = {"quick": 420, "thorough": 2400}
 
 
 class Ctx:
@@ -122,6 +123,13 @@ class Ctx:
     def seen(self, sig, nontrivial=True):
         """Count one judged execution; sig identifies the case for distinct counting."""
         self.evaluations += 1
+        if self.evaluations & 63 == 0 and time.time() - self.t0 > WALL_BUDGET[self.tier]:
+            # generous wall-clock watchdog: with violations already in hand stop and report
+            # them; without any, the run is inconclusive (never a violation by itself)
+            if getattr(self, "_unlisted", 0) == 0:
+                self.inconclusive_because("wall-clock budget of %ds exceeded" % WALL_BUDGET[self.tier])
+            self.notes["stopped_early"] = "wall-clock budget exceeded"
+            raise EnoughViolations()
         if nontrivial:
             try:
                 self.distinct.add(hash(sig))      # PYTHONHASHSEED=0 in every process
@@ -132,7 +140,14 @@ class Ctx:
         self.violation_count += 1
         self.mech_counts[mech] += 1
         self._record(mech, case, expected, got, detail)
-        if self.violation_count == VIOLATION_CAP:
+        if not hasattr(self, "_known_mechs"):
+            self._known_mechs = {k["mechanism"] for k in load_known().get("findings", [])
+                                 if k["property"] == self.pid and k.get("status") == "known"}
+            self._unlisted = 0
+        if mech in self._known_mechs:
+            return
+        self._unlisted += 1
+        if self._unlisted == VIOLATION_CAP:
             self.notes["stopped_early"] = "violation cap %d reached" % VIOLATION_CAP
             raise EnoughViolations()
 
@@ -396,7 +411,7 @@ def main(mod, pid, argv):
                 mod.run(ctx)
             except EnoughViolations:
                 pass
-        if getattr(mod, "SUITE_MONITOR", False) and ctx.violation_count < VIOLATION_CAP:
+        if getattr(mod, "SUITE_MONITOR", False) and getattr(ctx, "_unlisted", 0) < VIOLATION_CAP:
             # the repository's own tests and doctests as one more workload, judged by the
             # monitors attached to the real functions (rv/monitors.py)
             from . import suite
